@@ -29,26 +29,82 @@ from .. import tlc, session, gen
 _CTX = {}
 
 
+# lyric cells a line reader must take literally: quotes (balanced and not), commas, characters str.splitlines() would break at,
+# non-ASCII text in composed AND decomposed form (a reader that normalises the text changes it), compatibility characters, blanks
+WEIRD = ['"open', 'a\x85b', 'x,y', 'c\u2028d', '"hi"', 'ñu', '日本', 'o\u0301', 'u\u0308ber', '\u212bng', 'ﬁn', 'a b', 'tra\u00a0la', 'e\u0301\u0323',
+         'x\ufeffy', 'İs', 'ǅ', 'so\u00adft', "it's", 'back\\slash', 'semi;colon', 'a|b', 'per%cent', '½', 'x\u200bz', ' lead', 'trail ', 'Ω\u2126', 'ﾊﾟ', 'a\x0bb',
+         'a\x1cb', '\u1e9b\u0323', '\u0958']
+
+
+def lyric_doc(r, weird, need=3):
+    """a generated score with a lyrics spine whose cells are taken from `weird` (in order); None when it could not be built"""
+    for _ in range(400):
+        g = gen.DocGen(random.Random(r.random()), chords='core', max_rows=12, max_spines=3, first_kern=1.0, hidden_bars=False,
+                       types=['**kern', '**text'], fcoms=True, pre_comments=True)
+        lines, types = g.document()
+        if '**text' not in types:
+            continue
+        tcol = types.index('**text')
+        todo = list(weird)
+        for e in lines:
+            if e['ev'] == 'row' and len(e['cells']) == len(types) and e['cells'][tcol]['k'] in ('text', 'null') and todo:
+                e['cells'][tcol] = gen.lit('text', todo.pop(0))
+        if len(weird) - len(todo) >= need:
+            return lines
+    return None
+
+
+def load_case(seed):
+    """one generated file: load(path) against loads(its text) - line ends LF / CRLF / CR, with and without a final newline, sometimes
+    one malformed kern cell and blank lines before the first record (the reported lines must agree too)."""
+    import kernpy as kp
+    r = random.Random(seed)
+    weird = r.sample(WEIRD, 6)
+    lines = lyric_doc(r, weird)
+    if lines is None:
+        return None
+    if r.random() < 0.3:
+        rows = [i for i, e in enumerate(lines) if e['ev'] == 'row' and e['cells'][0]['k'] in ('note', 'chord', 'null')]
+        if rows:
+            i = r.choice(rows)
+            lines[i] = dict(lines[i], cells=[gen.lit('err', 'U4c')] + lines[i]['cells'][1:])
+    eol = r.choice(['\n', '\n', '\r\n', '\r'])
+    text = r.choice(['', '', eol, eol + eol]) + session.render(lines, eol=eol, final_eol=r.random() < 0.7)
+    d = tempfile.mkdtemp(prefix='kernpy_c20_')
+    try:
+        path = os.path.join(d, 'a.krn')
+        write_bytes(path, text)
+        try:
+            with warnings.catch_warnings():
+                warnings.simplefilter('ignore')
+                d1, e1 = kp.load(path) if seed % 3 else kp.read(path)
+                d2, e2 = kp.loads(text) if seed % 2 else kp.create(text)
+            same = session.snapshot(d1) == session.snapshot(d2) and [(x.line, x.encoding) for x in e1] == [(x.line, x.encoding) for x in e2]
+        except Exception:  # noqa
+            try:
+                kp.loads(text)
+                same = False                      # only the file path fails
+            except Exception:  # noqa
+                try:
+                    kp.load(path)
+                    same = False                  # only the text path fails
+                except Exception:  # noqa
+                    same = True                   # both refuse the text: nothing to compare
+    finally:
+        shutil.rmtree(d, ignore_errors=True)
+    return {'text': text, 'seed': seed, 'log': [{'ev': 'init', 'snap': [['', 'a', 'krn', 'K1']]}, {'ev': 'load', 'p': ['', 'a', 'krn'], 'same': same}]}
+
+
 def make_contents(seed):
     """the real texts behind the labels, and what the API produces for them."""
     import kernpy as kp
     r = random.Random(seed)
+
     def one_doc():
-        for _ in range(400):
-            g = gen.DocGen(random.Random(r.random()), chords='core', max_rows=12, max_spines=3, first_kern=1.0, hidden_bars=False,
-                           types=['**kern', '**text'], fcoms=True, pre_comments=True)
-            lines, types = g.document()
-            if '**text' not in types:
-                continue
-            # lyrics that begin with a double quote (balanced and unbalanced), a comma, non-ASCII text
-            tcol = types.index('**text')
-            weird = ['"open', 'a\x85b', 'x,y', 'c\u2028d', '"hi"', 'ñu', '日本']
-            for e in lines:
-                if e['ev'] == 'row' and len(e['cells']) == len(types) and e['cells'][tcol]['k'] in ('text', 'null') and weird:
-                    e['cells'][tcol] = gen.lit('text', weird.pop(0))
-            if len(weird) <= 4:
-                return lines
-        raise MachineryError('could not generate a document with a lyrics spine')
+        lines = lyric_doc(r, WEIRD[:7])
+        if lines is None:
+            raise MachineryError('could not generate a document with a lyrics spine')
+        return lines
 
     for attempt in range(200):
         docs_ = [one_doc(), one_doc()]
@@ -242,6 +298,14 @@ def main():
     hists = [h['hist'] for h in mc.vp]
     if not hists:
         raise MachineryError('MC_FileCli emitted no behaviour')
+    if a.replay_case and 'load_seed' in a.replay_case['case']:
+        c = load_case(a.replay_case['case']['load_seed'])
+        lv, tl = tlc.validate_traces('Trace_FileCli', [c['log']], shards=1)
+        run.traces = 1
+        for pos, clause in lv[0].fails:
+            run.violation({'text': c['text'], 'load_seed': c['seed'], 'clause': clause, 'input': c['text'][:300]},
+                          f'clause {clause}: load(path) and loads(text) differ for the file contents {c["text"][:300]!r}', classes=(), symptom=clause)
+        return run.finish()
     if a.replay_case:
         hists = [a.replay_case['case']['history']]
         a.seed = a.replay_case['case'].get('content_seed', a.seed)
@@ -288,6 +352,11 @@ def main():
     import multiprocessing as mp
     with mp.get_context('fork').Pool(16) as pool:
         logs = pool.map(replay, range(len(hists)), chunksize=16)
+    # load(path) == loads(text) on a population of generated files of its own (the two action-sequence files are only two texts)
+    nload = 60 if quick else 600
+    lseeds = [a.seed * 1000 + j for j in range(nload)]
+    with mp.get_context('fork').Pool(16) as pool:
+        lcases = [c for c in pool.map(load_case, lseeds, chunksize=4) if c]
     # binding self-test: a corrupted label must be rejected
     import copy
     probe = copy.deepcopy(next(l for l in logs if any(e['ev'] == 'act' and e['snap'] for e in l)))
@@ -318,6 +387,20 @@ def main():
                           classes=(), symptom=clause)
         if any(x.get('act', '').endswith('_dir') or x.get('out') for x in h[1:]):
             run.nontrivial.add(str(h))
+    lv, tl = tlc.validate_traces('Trace_FileCli', [c['log'] for c in lcases], timeout=1200)
+    for t in tl:
+        run.add_tlc(t)
+    run.traces += len(lcases)
+    run.evaluations += len(lcases)
+    for c, v in zip(lcases, lv):
+        if v.reached != v.length:
+            raise MachineryError('Trace_FileCli blocked on a load record')
+        for pos, clause in v.fails:
+            run.violation({'text': c['text'], 'load_seed': c['seed'], 'clause': clause, 'input': c['text'][:300]},
+                          f'clause {clause}: load(path) and loads(text) differ for the file contents {c["text"][:300]!r}', classes=(), symptom=clause)
+        if any(ord(ch) > 127 for ch in c['text']):
+            run.nontrivial.add('load:' + str(c['seed']))
+    run.note('load_population', len(lcases))
     run.note('behaviours_replayed', len(logs))
     run.note('subprocess_behaviour', str(hists[_CTX['subproc']])[:300])
     run.sample({'sequence': [describe(e)[:200] for e in logs[len(logs) // 2] if e['ev'] == 'act']})
